@@ -168,7 +168,7 @@ def run(tier):
                                           "the all-schedules theorem C14_isolated does not hold for real pickle (hence "
                                           "C14_isolated_partial carries 'no two writers overlap')")
     cov["rule"] = ("for each generated directory: real cache file produced by a request through a random protocol, then EVERY "
-                   "prefix length 0..size-1 plus zero-filled / 0xFF-filled / tail-half / reversed files of full length put in "
+                   "prefix length 0..size-1 plus the zero-filled and the 0xFF-filled file of full length put in "
                    "its place (mtime = now, i.e. fresh) and the listing requested through a seeded protocol sequence; reply "
                    "compared with the cacheless listing, the file afterwards with a complete entry, every 61st followed by a "
                    "second request; same enumeration over the three ZIP index cache files; non-trivial = every such request")
